@@ -74,8 +74,11 @@ Section GQ.
 
 Variable P : msg -> Prop.
 Variables (self tb : N).
-(* P holds of every plain message stamped with [self] and a term up to [tb] *)
-Hypothesis P_plain : forall x, ptype (m_type x) -> m_from x = self -> m_term x <= tb -> P x.
+(* the plain message types the node may send *)
+Variable pt : N -> Prop.
+Hypothesis pt_ok : forall ty, pt ty -> ptype ty.
+(* P holds of every such message stamped with [self] and a term up to [tb] *)
+Hypothesis P_plain : forall x, pt (m_type x) -> m_from x = self -> m_term x <= tb -> P x.
 Hypothesis P_batch1 : forall m e c, P m -> P (m <| m_entries := e |> <| m_commit := c |>).
 Hypothesis P_batch2 : forall m c, P m -> P (m <| m_commit := c |>).
 
@@ -116,13 +119,17 @@ Proof.
 Qed.
 
 Lemma send_GQ r m0 r' :
-  send r m0 = Ok r' -> m_from m0 = INVALID_ID -> ptype (m_type m0) -> GQ r r'.
+  send r m0 = Ok r' -> m_from m0 = INVALID_ID -> pt (m_type m0) -> GQ r r'.
 Proof.
   intros H Hf Hty. eapply send_GQ_gen; [exact H|].
   intros Hi Ht m' A1 A2 A3 _ _ A6. rewrite Hf, N.eqb_refl in A3.
-  destruct (ptype_plain _ Hty) as [V1 V2]. rewrite V1, V2 in A6. destruct A6 as [_ A6].
+  destruct (ptype_plain _ (pt_ok _ Hty)) as [V1 V2]. rewrite V1, V2 in A6. destruct A6 as [_ A6].
   apply P_plain; [rewrite A1; exact Hty|congruence|lia].
 Qed.
+
+Section GQLeader.
+(* a node that may lead sends every leader type *)
+Hypothesis HptL : forall ty, ltype ty -> pt ty.
 
 Lemma try_batching_P r to : forall msgs pr ents msgs' pr' b,
   try_batching r to msgs pr ents = Ok (msgs', pr', b) -> Forall P msgs -> Forall P msgs'.
@@ -152,7 +159,7 @@ Proof.
     ib Hs r1 H1. okinv Hs. unfold prepare_send_snapshot in Hx.
     dtop Hx; [discriminate|]. ib Hx sr Hsr. destruct sr as [s|e]; [|destruct e; discriminate].
     dtop Hx; [discriminate|]. okinv Hx.
-    eapply send_GQ; [exact H1|reflexivity|right; right; left; reflexivity]. }
+    eapply send_GQ; [exact H1|reflexivity|apply HptL; right; right; left; reflexivity]. }
   dtop H; [okinv H; apply GQ_refl|].
   dtop H; [apply Hsnap; exact H|].
   ib H ents He.
@@ -172,7 +179,7 @@ Proof.
     { destruct ents as [|e0 es]; [okinv Hz; split; reflexivity|].
       ib Hz p3 Hp3. okinv Hz. split; reflexivity. }
     destruct Hm' as (M1 & M2).
-    eapply send_GQ; [exact H1|exact M1|rewrite M2; left; reflexivity].
+    eapply send_GQ; [exact H1|exact M1|rewrite M2; apply HptL; left; reflexivity].
 Qed.
 
 Lemma GQ_put r r1 id p : GQ r r1 -> GQ r (put_pr r1 id p).
@@ -215,7 +222,7 @@ Proof. apply for_each_peer_GQ. apply send_append_to_GQ. Qed.
 Lemma send_heartbeat_GQ r to pr ctx r' : send_heartbeat r to pr ctx = Ok r' -> GQ r r'.
 Proof.
   unfold send_heartbeat. intros H.
-  eapply send_GQ; [exact H|destruct ctx; reflexivity|destruct ctx; right; left; reflexivity].
+  eapply send_GQ; [exact H|destruct ctx; reflexivity|destruct ctx; apply HptL; right; left; reflexivity].
 Qed.
 
 Lemma bcast_heartbeat_with_ctx_GQ r ctx r' : bcast_heartbeat_with_ctx r ctx = Ok r' -> GQ r r'.
@@ -250,7 +257,7 @@ Proof.
     assert (G1 : GQ r r2).
     { dtop Hy.
       - ib Hy d Hd. okinv Hy. okinv H2. apply GQ_same; reflexivity.
-      - okinv Hy. eapply send_GQ; [exact H2|reflexivity|right; right; right; left; reflexivity]. }
+      - okinv Hy. eapply send_GQ; [exact H2|reflexivity|apply HptL; right; right; right; left; reflexivity]. }
     eapply GQ_trans; eassumption.
 Qed.
 
@@ -347,7 +354,7 @@ Proof.
     { intros ra ca Ha. ib Ha z Hz. destruct z as [r1 om]. ib Ha w Hw. okinv Ha.
       unfold handle_ready_read_index in Hz. dtop Hz.
       - ib Hz d Hd. okinv Hz. okinv Hw. apply GQ_same; reflexivity.
-      - okinv Hz. eapply send_GQ; [exact Hw|reflexivity|right; right; right; left; reflexivity]. }
+      - okinv Hz. eapply send_GQ; [exact Hw|reflexivity|apply HptL; right; right; right; left; reflexivity]. }
     dtop H; [eapply Hnow; exact H|].
     dtop H; [|eapply Hnow; exact H].
     ib H ctx Hctx. ib H ro' Hro. ib H z Hz. okinv H.
@@ -366,11 +373,17 @@ Proof.
   okinv H. apply GQ_refl.
 Qed.
 
-(* follower handlers *)
+End GQLeader.
+
+(* follower handlers: only the two response types are sent *)
+Section GQFollower.
+Hypothesis HptFa : pt MsgAppendResponse.
+Hypothesis HptFh : pt MsgHeartbeatResponse.
+
 Lemma send_request_snapshot_GQ r r' : send_request_snapshot r = Ok r' -> GQ r r'.
 Proof.
   unfold send_request_snapshot. intros H. ib H t Ht. destruct t; [|discriminate].
-  eapply send_GQ; [exact H|reflexivity|right; right; right; right; left; reflexivity].
+  eapply send_GQ; [exact H|reflexivity|exact HptFa].
 Qed.
 
 Lemma GQ_log r l' r' : GQ (r <| r_log := l' |>) r' -> GQ r r'.
@@ -380,19 +393,19 @@ Lemma handle_heartbeat_GQ r m r' : handle_heartbeat r m = Ok r' -> GQ r r'.
 Proof.
   unfold handle_heartbeat. intros H. ib H l' Hl. apply (GQ_log r l').
   dtop H; [apply send_request_snapshot_GQ; exact H|].
-  eapply send_GQ; [exact H|reflexivity|right; right; right; right; right; reflexivity].
+  eapply send_GQ; [exact H|reflexivity|exact HptFh].
 Qed.
 
 Lemma handle_append_entries_GQ r m r' : handle_append_entries r m = Ok r' -> GQ r r'.
 Proof.
   unfold handle_append_entries. intros H.
   dtop H; [apply send_request_snapshot_GQ; exact H|].
-  dtop H; [eapply send_GQ; [exact H|reflexivity|right; right; right; right; left; reflexivity]|].
+  dtop H; [eapply send_GQ; [exact H|reflexivity|exact HptFa]|].
   ib H y Hy. destruct y as [l' res]. apply (GQ_log r l').
   destruct res as [[a last_idx]|].
-  - eapply send_GQ; [exact H|reflexivity|right; right; right; right; left; reflexivity].
+  - eapply send_GQ; [exact H|reflexivity|exact HptFa].
   - ib H z Hz. destruct z as [hi [ht|]]; [|discriminate].
-    eapply send_GQ; [exact H|reflexivity|right; right; right; right; left; reflexivity].
+    eapply send_GQ; [exact H|reflexivity|exact HptFa].
 Qed.
 
 Lemma handle_snapshot_GQ r m r' :
@@ -401,8 +414,10 @@ Proof.
   intros Hf. unfold handle_snapshot. intros H. ib H y Hy. destruct y as [r1 ok].
   apply restore_follower in Hy; [|exact Hf]. destruct Hy as [(K & _) M].
   eapply GQ_trans; [apply GQ_same; [exact K|exact M]|].
-  destruct ok; (eapply send_GQ; [exact H|reflexivity|right; right; right; right; left; reflexivity]).
+  destruct ok; (eapply send_GQ; [exact H|reflexivity|exact HptFa]).
 Qed.
+
+End GQFollower.
 
 End GQ.
 
@@ -515,8 +530,9 @@ Proof.
             m_from m0 = INVALID_ID -> ptype (m_type m0) -> Forall PC (r_msgs r0) -> Forall PC (r_msgs r1)).
   { intros r0 m0 r1 I0 T0 S0 F0 P0 Q0.
     assert (G : GQ PC self t r0 r1).
-    { eapply (send_GQ PC self t); try solve [exact PC_batch1 | exact PC_batch2
-                                             | intros x; apply (PC_plain self x Hs)]; eassumption. }
+    { eapply (send_GQ PC self t ptype);
+        try solve [exact PC_batch1 | exact PC_batch2 | intros x; apply (PC_plain self x Hs)
+                  | intros ty Hty; exact Hty]; eassumption. }
     destruct G as [_ G]. apply G; [exact I0|lia|exact Q0]. }
   assert (Hrej : forall r0 x, r_id r0 = self -> vresp x -> m_reject x = true -> m_from x = self ->
             m_term x <= t -> Forall PC (r_msgs r0) -> Forall PC (r_msgs (push r0 x))).
@@ -552,7 +568,10 @@ Proof.
 Qed.
 
 Ltac gqargs self Hs :=
-  try solve [exact PC_batch1 | exact PC_batch2 | intros x; apply (PC_plain self x Hs)].
+  try solve [exact PC_batch1 | exact PC_batch2 | intros x; apply (PC_plain self x Hs)
+            | intros ty Hty; exact Hty | exact ltype_ptype
+            | right; right; right; right; left; reflexivity
+            | right; right; right; right; right; reflexivity].
 
 (* a forwarded proposal / read request *)
 Lemma PC_forward self r m r' :
@@ -590,7 +609,7 @@ Proof.
   assert (Hs : In l (l :: ids)) by (left; reflexivity).
   eapply (member_step_PC L m L' cc l); try eassumption; try lia.
   - intros [r1 c1] _ Hl. cbn [fst].
-    eapply (step_leader_GQ PC l t); gqargs l Hs; eassumption.
+    eapply (step_leader_GQ PC l t ptype); gqargs l Hs; eassumption.
   - intros rr Hf. congruence.
   - left. exact I1.
 Qed.
@@ -617,15 +636,15 @@ Proof.
       eapply (PC_forward (r_id F)); [exact Hs|reflexivity|left; exact E1|exact Hy|exact Fq']. }
     destruct (m_type m =? MsgAppend) eqn:E2.
     { ib Hf y Hy. injection Hf as <- <-.
-      eapply Hg; [| |eapply (handle_append_entries_GQ PC (r_id F) t); gqargs (r_id F) Hs; exact Hy|exact Fq'];
+      eapply Hg; [| |eapply (handle_append_entries_GQ PC (r_id F) t ptype); gqargs (r_id F) Hs; exact Hy|exact Fq'];
         [reflexivity|exact I2]. }
     destruct (m_type m =? MsgHeartbeat) eqn:E3.
     { ib Hf y Hy. injection Hf as <- <-.
-      eapply Hg; [| |eapply (handle_heartbeat_GQ PC (r_id F) t); gqargs (r_id F) Hs; exact Hy|exact Fq'];
+      eapply Hg; [| |eapply (handle_heartbeat_GQ PC (r_id F) t ptype); gqargs (r_id F) Hs; exact Hy|exact Fq'];
         [reflexivity|exact I2]. }
     destruct (m_type m =? MsgSnapshot) eqn:E4.
     { ib Hf y Hy. injection Hf as <- <-.
-      eapply Hg; [| |eapply (handle_snapshot_GQ PC (r_id F) t); gqargs (r_id F) Hs; [|exact Hy]|exact Fq'];
+      eapply Hg; [| |eapply (handle_snapshot_GQ PC (r_id F) t ptype); gqargs (r_id F) Hs; [|exact Hy]|exact Fq'];
         [reflexivity|exact I2|exact I1]. }
     destruct (m_type m =? MsgTransferLeader) eqn:E5; [apply N.eqb_eq in E5; contradiction|].
     destruct (m_type m =? MsgTimeoutNow) eqn:E6; [apply N.eqb_eq in E6; contradiction|].
